@@ -3,6 +3,7 @@ import Drx.Spec.Ast
 import Drx.Spec.Compile
 import Drx.Spec.LingoRead
 import Drx.Spec.JsRead
+import Drx.Spec.LingoPrint
 namespace Drx.Drv.Lspec
 open Drx Drx.Drv Drx.Spec
 
@@ -176,6 +177,20 @@ def run : List String → Option String
     match readJsFunc (kind == "m") (← charsOfHex htext) with
     | some f => some (str f.render)
     | none => some "error"
+  -- printread <hex script sexpr>: reference printer, then the strict reference reader -> same | differ <hex text> | unreadable <hex text>
+  | ["printread", hscript] => do
+    match Script.parse (← charsOfHex hscript) with
+    | none => some "error bad-sexpr"
+    | some s =>
+      let text := printLingoText s
+      match readLingo text with
+      | some s' => if s'.beq s then some "same" else some ("differ " ++ hexOfChars text ++ " " ++ hexOfChars s'.render)
+      | none => some ("unreadable " ++ hexOfChars text)
+  -- printlingo <hex script sexpr> -> hex of the reference text
+  | ["printlingo", hscript] => do
+    match Script.parse (← charsOfHex hscript) with
+    | none => some "error bad-sexpr"
+    | some s => some (hexOfChars (printLingoText s))
   -- const <x> -> x (expected value of an observable the spec fixes, e.g. the number of raw jump pseudo-statements: 0)
   | ["const", x] => some x
   | _ => none
